@@ -628,7 +628,7 @@ func EncodeFileBlock(typ string, payload []byte, useZlib bool, level int, indexL
 	case dmg.Kind == "empty-blob":
 		// neither raw nor zlib_data
 		blob.varint(2, uint64(len(payload)))
-	case useZlib || dmg.Kind == "bad-zlib-header" || dmg.Kind == "corrupt-zlib" || dmg.Kind == "bad-adler" || dmg.Kind == "rawsize-plus" || dmg.Kind == "rawsize-minus" || dmg.Kind == "rawsize-abs" || dmg.Kind == "zlib-truncated":
+	case useZlib || dmg.Kind == "bad-zlib-header" || dmg.Kind == "corrupt-zlib" || dmg.Kind == "bad-adler" || dmg.Kind == "rawsize-plus" || dmg.Kind == "rawsize-minus" || dmg.Kind == "rawsize-abs" || dmg.Kind == "zlib-truncated" || dmg.Kind == "zlib-trailing" || dmg.Kind == "zlib-trailer-cut":
 		switch level {
 		case 0:
 			level = zlib.DefaultCompression
@@ -651,6 +651,12 @@ func EncodeFileBlock(typ string, payload []byte, useZlib bool, level int, indexL
 			z[len(z)-1] ^= 0x5A
 		case "zlib-truncated":
 			z = z[:len(z)/2]
+		case "zlib-trailing":
+			// bytes after the end of the zlib stream, inside zlib_data
+			z = append(z, bytes.Repeat([]byte{0x5a, 0x00, 0xff}, int(dmg.Arg)/3+1)[:dmg.Arg]...)
+		case "zlib-trailer-cut":
+			// the stream ends inside its 4-byte checksum trailer
+			z = z[:len(z)-int(dmg.Arg)]
 		case "rawsize-plus":
 			rs++
 		case "rawsize-minus":
